@@ -41,7 +41,7 @@ xenc = SpecFn("xenc", ["bytes"], "bytes",
               lambda f, s: z3.If(z3.Length(s) <= 0, z3.Empty(core.IntSeq),
                                  z3.Concat(_enc1_term(s[0]), f(z3.SubSeq(s, 1, z3.Length(s) - 1)))),
               lambda s: b"".join(_enc1_py(o) for o in s),
-              tests=[(b"",), (b"a",), (b"+",), (b"a=b ",), (b"\x00\xff~",)], bases=[(b"",)], ascii=True)
+              tests=[(b"",), (b"a",), (b"+",), (b"a=b ",), (b"\x00\xff~",)], bases=[(b"",)], ascii=True, depth=2)
 
 
 def _hv(c):
